@@ -4,7 +4,7 @@ import json
 from harness import tlc
 
 
-def validate(ctx, module, traces, decide="Decide", next_="Next", constants=None, workers=16, chunk=4000,
+def validate(ctx, module, traces, decide="Decide", next_="Next", init="Init", constants=None, workers=16, chunk=4000,
              invariants=(), note="trace validation", dfs=False, extra_files=None):
     """returns [(index, failing clause)] of the rejected traces (empty = all accepted).
     `decide` is an invariant of the trace module that prints the verdict (used for one-state traces);
@@ -15,7 +15,7 @@ def validate(ctx, module, traces, decide="Decide", next_="Next", constants=None,
         invs = list(invariants) + ([decide] if decide else [])
         files = {"traces.json": json.dumps(part)}
         files.update(extra_files or {})
-        r = ctx.tlc(module, tlc.cfg(next_=next_, invariants=invs, constants=constants),
+        r = ctx.tlc(module, tlc.cfg(init=init, next_=next_, invariants=invs, constants=constants),
                     note="%s (%d traces)" % (note, len(part)), env={"TRACE_FILE": "traces.json"},
                     files=files, workers=workers, dfs=dfs)
         if r.violation:
